@@ -416,8 +416,49 @@ func (statsFamily) Exec(c *hc.Case) {
 			}
 		}
 	}
+	if c.ID%4 == 0 {
+		fallbackOnlyStreamProbe(c, clk)
+	}
 	for t := range tags {
 		c.Tags = append(c.Tags, t)
+	}
+}
+
+// fallbackOnlyStreamProbe: a circuit wired with rolling FallbackStats but no rolling RunStats (asymmetric wiring): its
+// stream record still carries the fallback counts its FallbackStats counted.
+func fallbackOnlyStreamProbe(c *hc.Case, clk func() time.Time) {
+	fbs := &rolling.FallbackStats{}
+	fbs.SetConfigNotThreadSafe(rolling.FallbackStatsConfig{Now: clk, RollingStatsDuration: 10 * time.Second, RollingStatsNumBuckets: 10})
+	var cfg circuit.Config
+	cfg.General.TimeKeeper.Now = clk
+	cfg.Metrics.Fallback = []circuit.FallbackMetrics{fbs}
+	m := &circuit.Manager{}
+	cir := m.MustCreateCircuit("fb-only", cfg)
+	errRun := errors.New("run")
+	for k := 0; k < 3; k++ {
+		_ = cir.Execute(context.Background(), func(context.Context) error { return errRun }, func(context.Context, error) error {
+			if k == 2 {
+				return errRun
+			}
+			return nil
+		})
+	}
+	es := &metriceventstream.MetricEventStream{Manager: m, TickDuration: time.Millisecond}
+	go func() { _ = es.Start() }()
+	defer es.Close()
+	srv := httptest.NewServer(es)
+	defer srv.Close()
+	rec := fetchStreamRecord(srv.URL)
+	num := func(k string) int64 {
+		f, _ := rec[k].(float64)
+		return int64(f)
+	}
+	if len(rec) == 0 {
+		return
+	}
+	ws, wf := fbs.Successes.TotalSum(), fbs.ErrFailures.TotalSum()
+	if num("countFallbackSuccess") != ws || num("countFallbackFailure") != wf || num("rollingCountFallbackSuccess") != ws || num("rollingCountFallbackFailure") != wf {
+		c.Viol = append(c.Viol, hc.Violation{Clause: "each hystrix event-stream record is computed from those same numbers together with the circuit's name and current IsOpen value", Detail: fmt.Sprintf("circuit with rolling FallbackStats only: FallbackStats counted %d successes / %d failures, the served record says total %d / %d, rolling %d / %d", ws, wf, num("countFallbackSuccess"), num("countFallbackFailure"), num("rollingCountFallbackSuccess"), num("rollingCountFallbackFailure")), AtOp: len(c.Ops)})
 	}
 }
 
